@@ -50,7 +50,7 @@ def run_harness(hexe, seed, n, scenario, out):
     return rc, log
 
 
-def main(prop, prop_v, tier, seed, replay, scenarios, own_prefixes, known_prefixes=(), extra_cov=None, regen=False):
+def main(prop, prop_v, tier, seed, replay, scenarios, own_prefixes, known_prefixes=(), extra_cov=None, regen=False, extra_stage=None):
     """scenarios: list of scenario kinds (None = the default rotation).
     own_prefixes: monitor failure prefixes that are violations of this property."""
     res = L.Result(prop, tier, seed)
@@ -204,4 +204,6 @@ def main(prop, prop_v, tier, seed, replay, scenarios, own_prefixes, known_prefix
     })
     if extra_cov:
         cov.update(extra_cov)
+    if extra_stage and not replay:
+        cov.update(extra_stage(res) or {})
     return res.finish(cov, ASSUME)
